@@ -113,9 +113,11 @@ type Machine struct {
 	GlobalInit func(g *ssa.Global) (Val, bool)
 	Inline     func(fn *ssa.Function) bool
 	Recv       func(m *Machine, ch Val, instr *ssa.UnOp) Val
-	MaxSteps   int
-	MaxDepth   int
-	MaxPaths   int
+	// MapLookup, if set, gives the value of map[key] (ok=false: not modelled).
+	MapLookup func(m *Machine, mp, key Val, commaOk bool) (Val, bool)
+	MaxSteps  int
+	MaxDepth  int
+	MaxPaths  int
 	// OpaqueOK lets calls without model or body become opaque effects; when
 	// false such a call aborts the path.
 	OpaqueOK bool
@@ -770,6 +772,12 @@ func (m *Machine) exec(fr *frame, instr ssa.Instruction) {
 			fr.env[in] = Int{Lo: 0, Hi: 255, Name: x.Name + "[" + Show(idx) + "]"}
 		default:
 			// map lookup
+			if m.MapLookup != nil {
+				if v, ok := m.MapLookup(m, x, idx, in.CommaOk); ok {
+					fr.env[in] = v
+					break
+				}
+			}
 			name := "lookup(" + Show(x) + "," + Show(idx) + ")"
 			if in.CommaOk {
 				fr.env[in] = Tuple{symOfType(name, in.Type().(*types.Tuple).At(0).Type()), Bool(m.Atom(name + ".ok"))}
